@@ -8,6 +8,10 @@
 //!  5 ast NAME             `captive-portal: <ast>`: parse_string / type_to_name
 //!  7 F ast ORACLES RESULT a whole fragment (F = 1 dns-routes entry, 2 `prefixes` entry, 3 pref64) against the model's
 //!                         fragment parser; ast carries its strings (see `put_full_ast`, `frag_case`)
+//!  8 K text Y [NDOCS AST ROWS NKEYS class*] LOAD'  (LOAD' = LOAD with `npol (0 | 1 size)*`, the pool of every top-level policy, before SERVE)
+//!     every document (K = 1 grammar / sweep, 2 byte mutation, 3 example)
+//!                         with its AST (values included) and the external parsers' answers, against the model of
+//!                         the WHOLE loader (coq/Model/ConfigLoad.v); see `doc_case8`
 //!  6 text what a b        a document NOT run: it expands more than 2^17 pool addresses (see `screen`)
 //! where
 //!  text   = length-prefixed UTF-8 octets
@@ -353,6 +357,11 @@ fn serve(rt: &tokio::runtime::Runtime, shared: &SharedConfig) -> (u64, String) {
 
 /// LOAD part of a case line; returns (class, serve code, message)
 fn put_load(t: &mut Toks, text: &str) -> (u64, u64, String) {
+    put_load_opt(t, text, false)
+}
+
+/// with_pools: after the summary, the pool of every top-level DHCP policy: npol (0 | 1 size)*
+fn put_load_opt(t: &mut Toks, text: &str, with_pools: bool) -> (u64, u64, String) {
     let rt = new_rt();
     let (class, shared, msg) = load(&rt, text);
     t.n(class);
@@ -360,6 +369,19 @@ fn put_load(t: &mut Toks, text: &str) -> (u64, u64, String) {
         {
             let cfg = shared.try_read().expect("config lock");
             summary(t, &cfg);
+            if with_pools {
+                t.n(cfg.dhcp.policies.len() as u64);
+                for p in &cfg.dhcp.policies {
+                    match &p.apply_address {
+                        Some(set) => {
+                            t.n(1).n(set.len() as u64);
+                        }
+                        None => {
+                            t.n(0);
+                        }
+                    }
+                }
+            }
         }
         let (s, m) = serve(&rt, &shared);
         t.n(s);
@@ -1174,6 +1196,154 @@ fn frag_case(f: u64, y: &Y, stats: &mut Stats) -> Toks {
     t
 }
 
+
+// ---------------------------------------------------------------- whole documents against the loader model (kind 8)
+fn yaml_to_y(y: &yaml_rust::Yaml) -> Y {
+    use yaml_rust::Yaml::*;
+    match y {
+        Real(r) => Y::Real(r.clone()),
+        Integer(i) => Y::Int(*i),
+        String(st) => Y::Str(st.clone()),
+        Boolean(b) => Y::Bool(*b),
+        Array(a) => Y::Arr(a.iter().map(yaml_to_y).collect()),
+        Hash(h) => Y::Hash(h.iter().map(|(k, v)| (yaml_to_y(k), yaml_to_y(v))).collect()),
+        Null => Y::Null,
+        Alias(_) | BadValue => Y::Bad,
+    }
+}
+
+/// AST with values: 0 Real | 1 sign hi lo Integer | 2 n chars | 3 b | 4 n elem* | 5 n (key value)* | 7 Null | 8 Bad
+fn put_ast_values(t: &mut Toks, y: &yaml_rust::Yaml, strings: &mut Vec<String>) {
+    use yaml_rust::Yaml::*;
+    match y {
+        Real(_) => {
+            t.n(0);
+        }
+        Integer(i) => {
+            let m = i.unsigned_abs();
+            t.n(1).n((*i < 0) as u64).n(m >> 32).n(m & 0xffff_ffff);
+        }
+        String(st) => {
+            t.n(2).n(st.chars().count() as u64);
+            for c in st.chars() {
+                t.n(c as u64);
+            }
+            strings.push(st.clone());
+        }
+        Boolean(b) => {
+            t.n(3).b(*b);
+        }
+        Array(a) => {
+            t.n(4).n(a.len() as u64);
+            for x in a {
+                put_ast_values(t, x, strings);
+            }
+        }
+        Hash(h) => {
+            t.n(5).n(h.len() as u64);
+            for (k, v) in h {
+                put_ast_values(t, k, strings);
+                put_ast_values(t, v, strings);
+            }
+        }
+        Alias(_) | BadValue => {
+            t.n(8);
+        }
+        Null => {
+            t.n(7);
+        }
+    }
+}
+
+/// one row per distinct string and per part before the first '/': what the external parsers say
+fn put_oracle_rows(t: &mut Toks, strings: &[String]) {
+    let mut all: Vec<String> = strings.to_vec();
+    all.extend(strings.iter().map(|st| st.split('/').next().unwrap_or("").to_string()));
+    all.sort();
+    all.dedup();
+    t.n(all.len() as u64);
+    for st in &all {
+        t.n(st.chars().count() as u64);
+        for c in st.chars() {
+            t.n(c as u64);
+        }
+        // str_ip
+        let ip: Option<std::net::IpAddr> = match st.as_str() {
+            "$self4" => Some(config::INTERFACE4),
+            "$self6" => Some(config::INTERFACE6),
+            h => h.parse().ok(),
+        };
+        match ip {
+            None => {
+                t.n(0);
+            }
+            Some(std::net::IpAddr::V4(a)) => {
+                t.n(4).n(u32::from(a) as u64);
+            }
+            Some(std::net::IpAddr::V6(a)) => {
+                let v = u128::from(a);
+                t.n(6).n((v >> 96) as u64 & 0xffff_ffff).n((v >> 64) as u64 & 0xffff_ffff).n((v >> 32) as u64 & 0xffff_ffff).n(v as u64 & 0xffff_ffff);
+            }
+        }
+        match st.parse::<std::net::Ipv4Addr>() {
+            Ok(a) => {
+                t.n(1).n(u32::from(a) as u64);
+            }
+            Err(_) => {
+                t.n(0);
+            }
+        }
+        let sock = matches!(catch(|| config::str_sockaddr(Some(st.clone()))), Some(Ok(_)));
+        t.b(sock);
+    }
+}
+
+/// 8 K text Y [NDOCS AST ROWS NKEYS class*] LOAD   (K: 1 grammar, 2 byte mutation, 3 example;
+/// Y: the text is YAML; class*: the loader's class for every top-level key alone)
+fn doc_case8(kind: u64, text: &str, stats: &mut Stats, what: &str) -> Toks {
+    if kind != 3 {
+        if let Some((w, a, b)) = screen(text) {
+            let mut t = Toks::new();
+            t.n(6).bytes(text.as_bytes()).n(w).n(a).n(b);
+            stats.bump(&format!("{}.not-run-huge-expansion", what));
+            return t;
+        }
+    }
+    let mut t = Toks::new();
+    t.n(8).n(kind).bytes(text.as_bytes());
+    match catch(|| yaml_rust::YamlLoader::load_from_str(text)) {
+        Some(Ok(docs)) => {
+            t.n(1).n(docs.len() as u64);
+            let mut strings = vec![];
+            let null = yaml_rust::Yaml::Null;
+            let first = docs.first().unwrap_or(&null);
+            put_ast_values(&mut t, first, &mut strings);
+            put_oracle_rows(&mut t, &strings);
+            let rt = new_rt();
+            match (docs.len(), first) {
+                (1, yaml_rust::Yaml::Hash(h)) => {
+                    t.n(h.len() as u64);
+                    for (k, v) in h {
+                        let single = yamlgen::render(&Y::Hash(vec![(yaml_to_y(k), yaml_to_y(v))]));
+                        let (class, _, _) = load(&rt, &single);
+                        t.n(class);
+                    }
+                }
+                _ => {
+                    t.n(0);
+                }
+            }
+        }
+        _ => {
+            t.n(0);
+            stats.bump(&format!("{}.not-yaml", what));
+        }
+    }
+    let (c, s, m) = put_load_opt(&mut t, text, true);
+    note_outcome(stats, what, c, s, &m);
+    t
+}
+
 // ---------------------------------------------------------------- replay
 pub struct Cur<'a>(pub &'a [u64], pub usize);
 impl<'a> Cur<'a> {
@@ -1224,6 +1394,11 @@ fn replay_line(toks: &[u64], stats: &mut Stats) -> Option<Toks> {
             let y = ast_from_tokens(&mut c, 0)?;
             Some(name_case(&y, stats))
         }
+        8 => {
+            let k = c.n()?;
+            let b = c.bytes()?;
+            Some(doc_case8(k, &String::from_utf8_lossy(&b), stats, "replay"))
+        }
         7 => {
             let f = c.n()?;
             let y = full_ast_from_tokens(&mut c, 0)?;
@@ -1256,12 +1431,12 @@ pub fn run(args: &Args, out: &mut dyn Write) -> Stats {
     // the examples themselves (every run)
     let exs = examples();
     for (i, e) in exs.iter().enumerate() {
-        writeln!(out, "{}", example_case(i as u64, e, &mut stats).0).unwrap();
+        writeln!(out, "{}", doc_case8(3, e, &mut stats, "example").0).unwrap();
     }
     // every duration / integer valued key with every boundary value, min x max intervals (every run)
     for y in yamlgen::sweep() {
         let text = yamlgen::render(&y);
-        writeln!(out, "{}", doc_case(1, &text, &mut stats, "sweep").0).unwrap();
+        writeln!(out, "{}", doc_case8(1, &text, &mut stats, "sweep").0).unwrap();
     }
     let n = args.n.max(10);
     // (a) grammar documents: 45 %
@@ -1290,7 +1465,7 @@ pub fn run(args: &Args, out: &mut dyn Write) -> Stats {
             y
         };
         let text = yamlgen::render(&y);
-        writeln!(out, "{}", doc_case(1, &text, &mut stats, "doc").0).unwrap();
+        writeln!(out, "{}", doc_case8(1, &text, &mut stats, "doc").0).unwrap();
     }
     // (a') scalars through the modelled string parsers: 30 %
     for i in 0..n * 30 / 100 {
@@ -1315,7 +1490,7 @@ pub fn run(args: &Args, out: &mut dyn Write) -> Stats {
         let e = r.pick(&exs[1..]).clone();
         let b = mutate_bytes(&mut r, e.as_bytes());
         let text = String::from_utf8_lossy(&b).to_string();
-        writeln!(out, "{}", doc_case(2, &text, &mut stats, "bytes").0).unwrap();
+        writeln!(out, "{}", doc_case8(2, &text, &mut stats, "bytes").0).unwrap();
     }
     stats
 }
